@@ -24,7 +24,8 @@ RULE = (
 )
 ASSUMPTIONS = [
     "sound-first domain: registers are written before they are read by arithmetic/branches/array sizes; indices and qubit "
-    "addresses are non-negative; a live array address is not re-declared; cases outside are discarded (counted), never judged",
+    "addresses are non-negative; cases outside are discarded (counted), never judged",
+    "`array` on an address that already holds an array installs a fresh all-undefined array of the new length (Arrays.init_new_array)",
     "simulation mode (no register width overflow checks)",
 ]
 SHARDS = {"quick": 2, "thorough": 16}
@@ -209,7 +210,7 @@ def check(case) -> Dict[str, Any]:
                 if (a is not None and a < 0) or (b is not None and b < 0):
                     info["negmod"] = True
             if mn == "array" and ops[1]["addr"] in state.arrays:
-                raise ri.OutOfDomain("array re-declared")
+                info["redeclared"] = True  # `array` installs a fresh, all-undefined array (what the executor documents in code)
             steps += 1
             info["executed"] = info.get("executed", 0) + 1
             try:
@@ -282,6 +283,8 @@ def shard(ctx: Ctx) -> None:
         nt = (info["taken"] >= 1 and info["not_taken"] >= 1) or bool(info["fault_kinds"]) or info["negmod"]
         labels = ["fault:" + k for k in info["fault_kinds"]] + ["mn:" + m for m in info["mnemonics"]]
         stt.labels["executed-instructions-total"] += info["executed"]
+        if info.get("redeclared"):
+            labels.append("array-redeclared")
         labels += [f"subs:{len(case['subs'])}"] + (["step-bound"] if info["bound"] else []) + (["negmod"] if info["negmod"] else [])
         small = sum(len(s) for s in case["subs"]) <= 24
         stt.case(case, nt, labels, sample=case if small else None)
